@@ -3,8 +3,8 @@
    skipped, the fault pseudo-op, slot liveness) and the observable state dump of observe.go, as data the
    OCaml driver only has to print.  Nothing here models library code. *)
 From Coq Require Import ZArith NArith List Bool Lia.
-From Arsenal Require SyncMem Budget.
-From Arsenal Require Import VamDev VamBlockList Vam.
+From Arsenal Require SyncMem Budget Pass Defrag.
+From Arsenal Require Import VamDev VamBlockList VamDefrag Vam.
 Import ListNotations.
 Open Scope Z_scope.
 
@@ -12,8 +12,19 @@ Definition MAX_SLOTS : Z := 160.
 Definition MAX_POOLS : Z := 8.
 
 (* slotInfo (the fields that decide applicability) / poolInfo *)
-Record hslot := mkHslot { hs_live : bool; hs_ever : bool; hs_maps : Z }.
+Record hslot := mkHslot { hs_live : bool; hs_ever : bool; hs_maps : Z;
+                          hs_res : Z;          (* resource slot created together with the allocation, or -1 *)
+                          hs_align : Z;        (* reqAlign *)
+                          hs_wantded : bool }.
+(* resInfo *)
+Record hres := mkHres { hr_live : bool; hr_id : Z; hr_image : bool; hr_kind : Z; hr_req : resreq;
+                        hr_owner : Z; hr_bound : bool; hr_at : Z }.
 Record hpool := mkHpool { hp_live : bool; hp_uid : Z; hp_type : Z }.
+
+(* moveInfo: source slot, decision, slot of the temporary *)
+Record hmove := mkHmove { hm_src : Z; hm_dec : Z; hm_tmp : Z }.
+(* defragInfo *)
+Record hdefrag := mkHdefrag { hd_begun : bool; hd_inpass : bool; hd_pool : Z; hd_moves : list hmove }.
 
 Record world := mkWorld {
   w_v : option vam;          (* w.alloc *)
@@ -21,11 +32,19 @@ Record world := mkWorld {
   w_poisoned : bool;
   w_slots : list hslot;
   w_pools : list hpool;
-  w_pending : option fault   (* pendingFault *) }.
+  w_pending : option fault;  (* pendingFault *)
+  w_defrag : list hdefrag;
+  w_run : option dfrun;      (* the DefragmentationContext of the run in progress (one run at a time) *)
+  w_res : list hres }.
+
+Definition MAX_DEFRAG : Z := 4.
+Definition MAX_RES : Z := 64.
+Definition hres_none : hres := mkHres false 0 false 0 (mkResreq 0 0 0 false false) (-1) false (-1).
 
 Definition world_init : world :=
-  mkWorld None false false (repeat (mkHslot false false 0) (Z.to_nat MAX_SLOTS))
-          (repeat (mkHpool false 0 0) (Z.to_nat MAX_POOLS)) None.
+  mkWorld None false false (repeat (mkHslot false false 0 (-1) 0 false) (Z.to_nat MAX_SLOTS))
+          (repeat (mkHpool false 0 0) (Z.to_nat MAX_POOLS)) None
+          (repeat (mkHdefrag false false (-1) []) (Z.to_nat MAX_DEFRAG)) None (repeat hres_none (Z.to_nat MAX_RES)).
 
 (* op lines *)
 Inductive wop :=
@@ -43,6 +62,18 @@ Inductive wop :=
 | WStats (detailed : Z)
 | WDestroy
 | WFault (kind k result sticky : Z)
+| WDBegin (d flags pool maxBytes maxAllocs : Z)
+| WDPass (d : Z)
+| WDMove (d i dec : Z)
+| WDEnd (d : Z)
+| WDFin (d : Z)
+| WCBuf (r a size align tb reqDed prefDed bufUsage usage flags req pref ctb pool minAlign : Z)
+| WCImg (r a tiling size align tb reqDed prefDed imgUsage usage flags req pref ctb pool : Z)
+| WDRes (image : bool) (r a : Z)
+| WRRes (image : bool) (r tiling size align tb reqDed prefDed : Z)
+| WRdRes (r : Z)
+| WARes (image : bool) (a r usage flags req pref ctb pool : Z)
+| WBRes (image : bool) (a r off : Z)
 | WUnsupported.
 
 Inductive wres := WOk | WErr (code : Z) | WPanic | WSkip | WStuck.
@@ -51,21 +82,58 @@ Definition slot_ok (a : Z) : bool := (0 <=? a) && (a <? MAX_SLOTS).
 Definition pool_ok (p : Z) : bool := (0 <=? p) && (p <? MAX_POOLS).
 
 Definition hslot_at (w : world) (a : Z) : hslot :=
-  match nth_z (w_slots w) a with Some s => s | None => mkHslot false false 0 end.
+  match nth_z (w_slots w) a with Some s => s | None => mkHslot false false 0 (-1) 0 false end.
 Definition hpool_at (w : world) (p : Z) : hpool :=
   match nth_z (w_pools w) p with Some s => s | None => mkHpool false 0 0 end.
 
 Definition set_hslot (w : world) (a : Z) (s : hslot) : world :=
-  mkWorld (w_v w) (w_destroyed w) (w_poisoned w) (set_nth_z (w_slots w) a s) (w_pools w) (w_pending w).
+  mkWorld (w_v w) (w_destroyed w) (w_poisoned w) (set_nth_z (w_slots w) a s) (w_pools w) (w_pending w)
+          (w_defrag w) (w_run w) (w_res w).
 Definition set_hpool (w : world) (p : Z) (s : hpool) : world :=
-  mkWorld (w_v w) (w_destroyed w) (w_poisoned w) (w_slots w) (set_nth_z (w_pools w) p s) (w_pending w).
+  mkWorld (w_v w) (w_destroyed w) (w_poisoned w) (w_slots w) (set_nth_z (w_pools w) p s) (w_pending w)
+          (w_defrag w) (w_run w) (w_res w).
 Definition set_wv (w : world) (v : vam) : world :=
-  mkWorld (Some v) (w_destroyed w) (w_poisoned w) (w_slots w) (w_pools w) (w_pending w).
+  mkWorld (Some v) (w_destroyed w) (w_poisoned w) (w_slots w) (w_pools w) (w_pending w) (w_defrag w) (w_run w) (w_res w).
+Definition set_destroyed (w : world) : world :=
+  mkWorld (w_v w) true (w_poisoned w) (w_slots w) (w_pools w) (w_pending w) (w_defrag w) (w_run w) (w_res w).
+Definition set_poisoned (w : world) : world :=
+  mkWorld (w_v w) (w_destroyed w) true (w_slots w) (w_pools w) (w_pending w) (w_defrag w) (w_run w) (w_res w).
+Definition set_pending (w : world) (f : option fault) : world :=
+  mkWorld (w_v w) (w_destroyed w) (w_poisoned w) (w_slots w) (w_pools w) f (w_defrag w) (w_run w) (w_res w).
+Definition set_hdefrag (w : world) (d : Z) (h : hdefrag) : world :=
+  mkWorld (w_v w) (w_destroyed w) (w_poisoned w) (w_slots w) (w_pools w) (w_pending w)
+          (set_nth_z (w_defrag w) d h) (w_run w) (w_res w).
+Definition set_run (w : world) (r : option dfrun) : world :=
+  mkWorld (w_v w) (w_destroyed w) (w_poisoned w) (w_slots w) (w_pools w) (w_pending w) (w_defrag w) r (w_res w).
+Definition set_hres (w : world) (r : Z) (h : hres) : world :=
+  mkWorld (w_v w) (w_destroyed w) (w_poisoned w) (w_slots w) (w_pools w) (w_pending w) (w_defrag w) (w_run w)
+          (set_nth_z (w_res w) r h).
+Definition hres_at (w : world) (r : Z) : hres :=
+  match nth_z (w_res w) r with Some h => h | None => hres_none end.
+Definition res_ok (r : Z) : bool := (0 <=? r) && (r <? MAX_RES).
+
+Definition hdefrag_at (w : world) (d : Z) : hdefrag :=
+  match nth_z (w_defrag w) d with Some h => h | None => mkHdefrag false false (-1) [] end.
+Definition defrag_ok (d : Z) : bool := (0 <=? d) && (d <? MAX_DEFRAG).
+
+(* inPendingMove *)
+Definition in_pending_move (w : world) (a : Z) : bool :=
+  existsb (fun h => hd_inpass h && existsb (fun m => hm_src m =? a) (hd_moves h)) (w_defrag w).
+Definition any_begun (w : world) : bool := existsb hd_begun (w_defrag w).
 
 (* noteAlloc / markDead *)
-Definition note_alloc (w : world) (a : Z) : world := set_hslot w a (mkHslot true true 0).
+Definition note_alloc_full (w : world) (a align : Z) (wantded : bool) (res : Z) : world :=
+  set_hslot w a (mkHslot true true 0 res align wantded).
+(* markDead: raw resources bound to the allocation lose their binding on the device (ForgetBinding) *)
 Definition mark_dead (w : world) (a : Z) : world :=
-  set_hslot w a (mkHslot false (hs_ever (hslot_at w a)) 0).
+  let forget (v : vam) :=
+    fold_left (fun v' h => if hr_live h && hr_bound h && (hr_at h =? a)
+                           then set_m v' (dev_forget_binding (v_m v') (hr_id h)) else v') (w_res w) v in
+  let w1 := match w_v w with Some v => set_wv w (forget v) | None => w end in
+  let s := hslot_at w1 a in
+  set_hslot w1 a (mkHslot false (hs_ever s) 0 (-1) (hs_align s) (hs_wantded s)).
+Definition set_maps (w : world) (a n : Z) : world :=
+  let s := hslot_at w a in set_hslot w a (mkHslot (hs_live s) (hs_ever s) n (hs_res s) (hs_align s) (hs_wantded s)).
 
 (* createInfo: the pool argument; None = not applicable *)
 Definition pool_arg (w : world) (pool : Z) : option (option Z) :=
@@ -79,7 +147,8 @@ Variable c : vcfg.
 (* what to do with an op line: skip it, or call the library and then update the bookkeeping *)
 Inductive plan :=
 | PSkip
-| PCall (o : op) (post : world -> world)   (* post is applied when the call returned no error *).
+| PCall (o : op) (post : world -> world)   (* post is applied when the call returned no error *)
+| PCall2 (o : op) (post_ok post_err : world -> world).
 
 Definition all_slots (w : world) (a0 : Z) (n : nat) (p : hslot -> bool) : bool :=
   forallb (fun s => p (hslot_at w s)) (slot_range a0 n).
@@ -97,7 +166,7 @@ Definition plan_of (w : world) (v : vam) (o : wop) : plan :=
     | Some po =>
       let wasLive := hs_live (hslot_at w a) in
       PCall (OAlloc a size align tb usage flags req pref ctb po)
-            (fun w' => if wasLive then w' else note_alloc w' a)
+            (fun w' => if wasLive then w' else note_alloc_full w' a align (fl flags F_DEDICATED || (usage =? 1)) (-1))
     end
   | WAllocN a0 n size align tb usage flags req pref ctb pool =>
     if negb (slot_ok a0) || (n <? 0) || (negb (slot_ok (a0 + n - 1)) && (0 <? n)) then PSkip else
@@ -106,26 +175,30 @@ Definition plan_of (w : world) (v : vam) (o : wop) : plan :=
     | Some po =>
       let anyLive := negb (all_slots w a0 (Z.to_nat n) (fun s => negb (hs_live s))) in
       PCall (OAllocN a0 n size align tb usage flags req pref ctb po)
-            (fun w' => if anyLive then w' else fold_slots note_alloc a0 (Z.to_nat n) w')
+            (fun w' => if anyLive then w'
+                       else fold_slots (fun w'' s => note_alloc_full w'' s align (fl flags F_DEDICATED || (usage =? 1)) (-1))
+                                       a0 (Z.to_nat n) w')
     end
   | WFree a =>
     let s := hslot_at w a in
-    if negb (slot_ok a) || negb (hs_ever s) then PSkip
-    else if hs_live s && (0 <? hs_maps s) then PSkip
+    if negb (slot_ok a) || negb (hs_ever s) || in_pending_move w a then PSkip
+    else if hs_live s && ((0 <=? hs_res s) || (0 <? hs_maps s)) then PSkip
     else PCall (OFree a) (fun w' => mark_dead w' a)
   | WFreeN a0 n =>
     if negb (slot_ok a0) || (n <=? 0) || negb (slot_ok (a0 + n - 1)) then PSkip
-    else if negb (all_slots w a0 (Z.to_nat n) (fun s => hs_live s && (hs_maps s =? 0))) then PSkip
+    else if negb (all_slots w a0 (Z.to_nat n) (fun s => hs_live s && (hs_maps s =? 0) && (hs_res s <? 0))) then PSkip
+    else if existsb (in_pending_move w) (slot_range a0 (Z.to_nat n)) then PSkip
     else PCall (OFreeN a0 n) (fun w' => fold_slots mark_dead a0 (Z.to_nat n) w')
   | WMap a =>
     let s := hslot_at w a in
     if negb (slot_ok a) || negb (hs_live s) then PSkip
     else if negb (host_visible c (a_type (get_alloc v a))) then PSkip
-    else PCall (OMap a) (fun w' => set_hslot w' a (mkHslot (hs_live s) (hs_ever s) (hs_maps s + 1)))
+    else if in_pending_move w a then PSkip
+    else PCall (OMap a) (fun w' => set_maps w' a (hs_maps s + 1))
   | WUnmap a =>
     let s := hslot_at w a in
     if negb (slot_ok a) || negb (hs_live s) || (hs_maps s =? 0) then PSkip
-    else PCall (OUnmap a) (fun w' => set_hslot w' a (mkHslot (hs_live s) (hs_ever s) (hs_maps s - 1)))
+    else PCall (OUnmap a) (fun w' => set_maps w' a (hs_maps s - 1))
   | WRw a =>
     let s := hslot_at w a in
     if negb (slot_ok a) || negb (hs_live s) then PSkip
@@ -141,68 +214,245 @@ Definition plan_of (w : world) (v : vam) (o : wop) : plan :=
     else PCall (OMkPool ty flags bs minB maxB minAlign) (fun w' => set_hpool w' p (mkHpool true (v_next_uid v) ty))
   | WRmPool p =>
     if negb (pool_ok p) || negb (hp_live (hpool_at w p)) then PSkip
+    else if existsb (fun h => hd_begun h && (hd_pool h =? p)) (w_defrag w) then PSkip
     else PCall (ORmPool (hp_uid (hpool_at w p)))
                (fun w' => set_hpool w' p (mkHpool false (hp_uid (hpool_at w p)) (hp_type (hpool_at w p))))
   | WStats d => PCall (OStats (negb (d =? 0))) (fun w' => w')
   | WDestroy =>
-    PCall ODestroy (fun w' => mkWorld (w_v w') true (w_poisoned w') (w_slots w') (w_pools w') (w_pending w'))
+    if any_begun w then PSkip else PCall ODestroy set_destroyed
+  | WCBuf r a size align tb reqDed prefDed bufUsage usage flags req pref ctb pool minAlign =>
+    if negb (res_ok r) || hr_live (hres_at w r) || negb (slot_ok a) || hs_live (hslot_at w a) then PSkip else
+    match pool_arg w pool with
+    | None => PSkip
+    | Some po =>
+      if (0 <=? pool) && negb (Z.testbit tb (hp_type (hpool_at w pool))) then PSkip else
+      let rq := mkResreq size align tb (negb (reqDed =? 0)) (negb (prefDed =? 0)) in
+      let id := m_next_res (v_m v) + 1 in
+      let wantded := fl flags F_DEDICATED || (usage =? 1) || (rq_reqded rq && (11 <=? c_api c)) in
+      PCall (OCreateBuf a size rq bufUsage minAlign usage flags req pref ctb po)
+            (fun w' => note_alloc_full (set_hres w' r (mkHres true id false 1 rq a (negb (fl flags F_DONTBIND)) a))
+                                       a (if align <? minAlign then minAlign else align) wantded r)
+    end
+  | WCImg r a tiling size align tb reqDed prefDed imgUsage usage flags req pref ctb pool =>
+    if negb (res_ok r) || hr_live (hres_at w r) || negb (slot_ok a) || hs_live (hslot_at w a) then PSkip else
+    match pool_arg w pool with
+    | None => PSkip
+    | Some po =>
+      if (0 <=? pool) && negb (Z.testbit tb (hp_type (hpool_at w pool))) then PSkip else
+      let rq := mkResreq size align tb (negb (reqDed =? 0)) (negb (prefDed =? 0)) in
+      let id := m_next_res (v_m v) + 1 in
+      let wantded := fl flags F_DEDICATED || (usage =? 1) || (rq_reqded rq && (11 <=? c_api c)) in
+      PCall (OCreateImg a tiling size rq imgUsage usage flags req pref ctb po)
+            (fun w' => note_alloc_full (set_hres w' r (mkHres true id true (if tiling =? 0 then 3 else 2) rq a
+                                                              (negb (fl flags F_DONTBIND)) a))
+                                       a align wantded r)
+    end
+  | WDRes image r a =>
+    let h := hres_at w r in
+    let s := hslot_at w a in
+    if negb (res_ok r) || negb (hr_live h) || negb (slot_ok a) || negb (hs_live s) || negb (hs_res s =? r)
+       || in_pending_move w a || (0 <? hs_maps s) then PSkip
+    else if negb (Bool.eqb (hr_image h) image) then PSkip
+    else
+      let dead (w' : world) := set_hres w' r (mkHres false (hr_id h) (hr_image h) (hr_kind h) (hr_req h) (hr_owner h)
+                                                     (hr_bound h) (hr_at h)) in
+      PCall2 (ODestroyRes a image (hr_id h))
+             (fun w' => mark_dead (dead w') a)
+             (fun w' => let s' := hslot_at w' a in
+                        set_hslot (dead w') a (mkHslot (hs_live s') (hs_ever s') (hs_maps s') (-1) (hs_align s') (hs_wantded s')))
+  | WRRes image r tiling size align tb reqDed prefDed =>
+    if negb (res_ok r) || hr_live (hres_at w r) then PSkip else
+    let rq := mkResreq size align tb (negb (reqDed =? 0)) (negb (prefDed =? 0)) in
+    let kind := if image then (if tiling =? 0 then 3 else 2) else 1 in
+    let id := m_next_res (v_m v) + 1 in
+    PCall (ORawCreate image kind rq) (fun w' => set_hres w' r (mkHres true id image kind rq (-1) false (-1)))
+  | WRdRes r =>
+    let h := hres_at w r in
+    if negb (res_ok r) || negb (hr_live h) || (0 <=? hr_owner h) then PSkip
+    else PCall (ORawDestroy (hr_image h) (hr_id h))
+               (fun w' => set_hres w' r (mkHres false (hr_id h) (hr_image h) (hr_kind h) (hr_req h) (hr_owner h)
+                                                (hr_bound h) (hr_at h)))
+  | WARes image a r usage flags req pref ctb pool =>
+    let h := hres_at w r in
+    if negb (slot_ok a) || hs_live (hslot_at w a) || negb (res_ok r) || negb (hr_live h)
+       || negb (Bool.eqb (hr_image h) image) then PSkip else
+    match pool_arg w pool with
+    | None => PSkip
+    | Some po =>
+      let rq := hr_req h in
+      let wantded := fl flags F_DEDICATED || (usage =? 1) || (rq_reqded rq && (11 <=? c_api c)) in
+      PCall (OAllocFor a image (hr_id h) usage flags req pref ctb po)
+            (fun w' => note_alloc_full w' a (rq_align rq) wantded (-1))
+    end
+  | WBRes image a r off =>
+    let h := hres_at w r in
+    let s := hslot_at w a in
+    if negb (slot_ok a) || negb (hs_live s) || negb (res_ok r) || negb (hr_live h) || hr_bound h
+       || negb (Bool.eqb (hr_image h) image) then PSkip else
+    let rq := hr_req h in
+    let al := get_alloc v a in
+    let o := if off <? 0 then 0 else off in
+    if negb (Z.testbit (rq_tb rq) (a_type al)) || (a_size al <? o + rq_size rq)
+       || ((0 <? rq_align rq) && (negb (Z.rem o (rq_align rq) =? 0) || negb (Z.rem (hs_align s) (rq_align rq) =? 0)))
+    then PSkip
+    else if rq_reqded rq && (11 <=? c_api c) && negb (hs_wantded s && (o =? 0)) then PSkip
+    else PCall (OBind a image (hr_id h) o)
+               (fun w' => set_hres w' r (mkHres (hr_live h) (hr_id h) (hr_image h) (hr_kind h) (hr_req h) (hr_owner h) true a))
   | _ => PSkip
   end.
 
+Inductive ltag := LA | LT | LDEV | LRES | LHEAP | LSTATT | LSTATH | LSTATA | LPOOLL | LLIST | LBLK | LOBSPANIC
+                | LMOVES | LMV | LDEND | LDSTATS.
+Definition line := (ltag * list Z)%type.
+
 Record stepout := mkStepout {
   so_res : wres;
+  so_extra : list line;      (* MOVES / MV / DEND / DSTATS *)
   so_faults : option Z;      (* Some n: a fault was armed for this step, n fired *)
   so_calls : list call }.
 
+Definition wres_of (r : result) : wres :=
+  match r with ROk => WOk | RErr code => WErr code | RPanic => WPanic | RStuck => WStuck end.
+
+Definition poison_if (r : result) (w : world) : world :=
+  match r with RPanic | RStuck => set_poisoned w | _ => w end.
+
+(* the MV line of move i: i srcSlot srcMem srcOff dstMem dstOff size *)
+Definition mv_line (v : vam) (i : Z) (mv : Defrag.move) : line :=
+  let s := Z.of_nat (Defrag.m_src mv) in
+  let t := Z.of_nat (Defrag.m_tmp mv) in
+  let a := get_alloc v s in
+  let b := get_alloc v t in
+  let loc (x : alloc) := if a_allocated x then (a_mem x, match find_offset v x with Some o => o | None => 0 end)
+                         else (-1, 0) in
+  (LMV, [i; (if s <? MAX_SLOTS then s else -1); fst (loc a); snd (loc a); fst (loc b); snd (loc b); Defrag.m_size mv]).
+
+Fixpoint mv_lines (v : vam) (i : Z) (mvs : list Defrag.move) : list line :=
+  match mvs with
+  | [] => []
+  | mv :: tl => mv_line v i mv :: mv_lines v (i + 1) tl
+  end.
+
+(* execDefrag (called with a live, not destroyed allocator) *)
+Definition wdefrag (w0 : world) (v : vam) (o : wop) (f : fault) (faulted : bool) : world * stepout :=
+  let skip := (w0, mkStepout WSkip [] (if faulted then Some 0 else None) []) in
+  let fo (v1 : vam) := if faulted then Some (m_fired (v_m v1)) else None in
+  match o with
+  | WDBegin d flags pool maxBytes maxAllocs =>
+    if negb (defrag_ok d) || any_begun w0 then skip else
+    match pool_arg w0 pool with
+    | None => skip
+    | Some po =>
+      let '(v1, run1, r, calls, _) := dstep c v None (DBegin flags po maxBytes maxAllocs) f in
+      let w1 := poison_if r (set_wv w0 v1) in
+      match r with
+      | ROk => (set_run (set_hdefrag w1 d (mkHdefrag true false pool [])) run1, mkStepout WOk [] (fo v1) calls)
+      | _ => (w1, mkStepout (wres_of r) [] (fo v1) calls)
+      end
+    end
+  | WDPass d =>
+    let h := hdefrag_at w0 d in
+    if negb (defrag_ok d) || negb (hd_begun h) || hd_inpass h then skip
+    else if existsb (fun s => hs_live s && (0 <? hs_maps s)) (w_slots w0) then skip
+    else
+      let '(v1, run1, r, calls, dr) := dstep c v (w_run w0) DPass f in
+      let w1 := poison_if r (set_run (set_wv w0 v1) run1) in
+      match r, dr with
+      | ROk, DRMoves mvs =>
+        let hms := map (fun mv => mkHmove (let s := Z.of_nat (Defrag.m_src mv) in if s <? MAX_SLOTS then s else -1) 0
+                                          (Z.of_nat (Defrag.m_tmp mv))) mvs in
+        (set_hdefrag w1 d (mkHdefrag true true (hd_pool h) hms),
+         mkStepout WOk ((LMOVES, [zlen mvs]) :: mv_lines v1 0 mvs) (fo v1) calls)
+      | _, _ => (w1, mkStepout (wres_of r) [] (fo v1) calls)
+      end
+  | WDMove d i dec =>
+    let h := hdefrag_at w0 d in
+    if negb (defrag_ok d) || negb (hd_inpass h) || (i <? 0) || (zlen (hd_moves h) <=? i) || (dec <? 0) || (2 <? dec)
+    then skip
+    else
+      let hms := match nth_z (hd_moves h) i with
+                 | Some m => set_nth_z (hd_moves h) i (mkHmove (hm_src m) dec (hm_tmp m))
+                 | None => hd_moves h
+                 end in
+      (set_hdefrag w0 d (mkHdefrag (hd_begun h) (hd_inpass h) (hd_pool h) hms),
+       mkStepout WOk [] (if faulted then Some 0 else None) [])
+  | WDEnd d =>
+    let h := hdefrag_at w0 d in
+    if negb (defrag_ok d) || negb (hd_inpass h) then skip
+    else
+      let '(v1, run1, r, calls, dr) := dstep c v (w_run w0) (DEnd (map hm_dec (hd_moves h))) f in
+      let w1 := poison_if r (set_run (set_wv w0 v1) run1) in
+      let w2 := set_hdefrag w1 d (mkHdefrag (hd_begun h) false (hd_pool h) (hd_moves h)) in
+      let w3 := fold_left (fun w' m =>
+                             if (hm_dec m =? 2) && (0 <=? hm_src m) then
+                               let rs := hs_res (hslot_at w' (hm_src m)) in
+                               let w'' := if 0 <=? rs then
+                                            let hr := hres_at w' rs in
+                                            set_hres w' rs (mkHres (hr_live hr) (hr_id hr) (hr_image hr) (hr_kind hr)
+                                                                   (hr_req hr) (-1) (hr_bound hr) (hr_at hr))
+                                          else w' in
+                               mark_dead w'' (hm_src m)
+                             else w') (hd_moves h) w2 in
+      let done := match dr with DRDone true => 1 | _ => 0 end in
+      (w3, mkStepout (match r with RErr _ => WErr 0 | other => wres_of other end) [(LDEND, [done])] (fo v1) calls)
+  | WDFin d =>
+    let h := hdefrag_at w0 d in
+    if negb (defrag_ok d) || negb (hd_begun h) || hd_inpass h then skip
+    else
+      let '(v1, run1, r, calls, dr) := dstep c v (w_run w0) DFin f in
+      let w1 := poison_if r (set_run (set_wv w0 v1) None) in
+      let w2 := set_hdefrag w1 d (mkHdefrag false false (hd_pool h) (hd_moves h)) in
+      let st := match dr with DRStats s => s | _ => Pass.ps_zero end in
+      (w2, mkStepout (wres_of r)
+                     [(LDSTATS, [Pass.ps_bytes_moved st; Pass.ps_bytes_freed st; Pass.ps_allocs_moved st;
+                                 Pass.ps_allocs_freed st])] (fo v1) calls)
+  | _ => skip
+  end.
+
+Definition is_defrag_op (o : wop) : bool :=
+  match o with WDBegin _ _ _ _ _ | WDPass _ | WDMove _ _ _ | WDEnd _ | WDFin _ => true | _ => false end.
+
 (* World.Step *)
 Definition wstep (w : world) (o : wop) : world * stepout :=
-  if w_poisoned w then (w, mkStepout WSkip None [])
+  if w_poisoned w then (w, mkStepout WSkip [] None [])
   else
     match o with
     | WFault kind k result sticky =>
-      (mkWorld (w_v w) (w_destroyed w) (w_poisoned w) (w_slots w) (w_pools w)
-               (Some (mkFault true kind k result (negb (sticky =? 0)))),
-       mkStepout WOk None [])
+      (set_pending w (Some (mkFault true kind k result (negb (sticky =? 0)))), mkStepout WOk [] None [])
     | _ =>
       let f := match w_pending w with Some f => f | None => no_fault end in
       let faulted := match w_pending w with Some _ => true | None => false end in
-      let w0 := mkWorld (w_v w) (w_destroyed w) (w_poisoned w) (w_slots w) (w_pools w) None in
-      let no_call (r : wres) := (w0, mkStepout r (if faulted then Some 0 else None) []) in
+      let w0 := set_pending w None in
+      let no_call (r : wres) := (w0, mkStepout r [] (if faulted then Some 0 else None) []) in
       match o, w_v w0 with
       | WNew, Some _ => no_call WSkip
       | WNew, None =>
         match vam_new c (Z.to_nat MAX_SLOTS) with
-        | OK v => (set_wv w0 v, mkStepout WOk (if faulted then Some 0 else None) [])
+        | OK v => (set_wv w0 v, mkStepout WOk [] (if faulted then Some 0 else None) [])
         | _ => no_call (WErr 0)
         end
       | _, None => no_call WSkip
       | _, Some v =>
         if w_destroyed w0 then no_call WSkip
+        else if is_defrag_op o then wdefrag w0 v o f faulted
         else
           match plan_of w0 v o with
           | PSkip => no_call WSkip
           | PCall lo post =>
             let '(v1, r, calls) := step c v lo f in
-            let w1 := set_wv w0 v1 in
+            let w1 := poison_if r (set_wv w0 v1) in
             let fo := if faulted then Some (m_fired (v_m v1)) else None in
-            match r with
-            | ROk => (post w1, mkStepout WOk fo calls)
-            | RErr code => (w1, mkStepout (WErr code) fo calls)
-            | RPanic =>
-              (mkWorld (w_v w1) (w_destroyed w1) true (w_slots w1) (w_pools w1) (w_pending w1),
-               mkStepout WPanic fo calls)
-            | RStuck =>
-              (mkWorld (w_v w1) (w_destroyed w1) true (w_slots w1) (w_pools w1) (w_pending w1),
-               mkStepout WStuck fo calls)
-            end
+            (match r with ROk => post w1 | _ => w1 end, mkStepout (wres_of r) [] fo calls)
+          | PCall2 lo post_ok post_err =>
+            let '(v1, r, calls) := step c v lo f in
+            let w1 := poison_if r (set_wv w0 v1) in
+            let fo := if faulted then Some (m_fired (v_m v1)) else None in
+            (match r with ROk => post_ok w1 | RErr _ => post_err w1 | _ => w1 end, mkStepout (wres_of r) [] fo calls)
           end
       end
     end.
 
 (* ---------------------------------------------------------------- observe() *)
-
-Inductive ltag := LA | LDEV | LHEAP | LSTATT | LSTATH | LSTATA | LPOOLL | LLIST | LBLK | LOBSPANIC.
-Definition line := (ltag * list Z)%type.
 
 Definition b2z (b : bool) : Z := if b then 1 else 0.
 
@@ -311,16 +561,46 @@ Fixpoint a_lines (w : world) (v : vam) (n : nat) (s : Z) : list line :=
   | S k => alloc_line w v s ++ a_lines w v k (s + 1)
   end.
 
+Fixpoint res_lines (m : mach) (hs : list hres) (r : Z) : list line :=
+  match hs with
+  | [] => []
+  | h :: tl =>
+    (if hr_live h then
+       let '(bm, bo) := match find_res (m_res m) (hr_id h) with
+                        | Some d => if rs_bound d then (rs_bmem d, rs_boff d) else (0, 0)
+                        | None => (0, 0)
+                        end in
+       [(LRES, [r; hr_id h; hr_kind h; bm; bo])]
+     else []) ++ res_lines m tl (r + 1)
+  end.
+
+(* T lines: the temporaries of a pass in progress *)
+Fixpoint t_lines_of (v : vam) (d i : Z) (ms : list hmove) : list line :=
+  match ms with
+  | [] => []
+  | m :: tl =>
+    let a := get_alloc v (hm_tmp m) in
+    (if a_allocated a then
+       [(LT, [d; i; a_mem a; match find_offset v a with Some o => o | None => 0 end; a_size a; a_type a])]
+     else []) ++ t_lines_of v d (i + 1) tl
+  end.
+
+Fixpoint t_lines (v : vam) (hs : list hdefrag) (d : Z) : list line :=
+  match hs with
+  | [] => []
+  | h :: tl => (if hd_inpass h then t_lines_of v d 0 (hd_moves h) else []) ++ t_lines v tl (d + 1)
+  end.
+
 (* observe(): the state dump after a step.  The HEAP lines query HeapBudget, which may refetch the budget
    (VK_EXT_memory_budget), so observing changes the state. *)
 Definition observe (w : world) : world * list line :=
   match w_v w with
   | None => (w, [])
   | Some v =>
-    if w_poisoned w then (w, dev_lines (v_m v))
+    if w_poisoned w then (w, dev_lines (v_m v) ++ res_lines (v_m v) (w_res w) 0)
     else
-      let la := a_lines w v (Z.to_nat MAX_SLOTS) 0 in
-      let ld := dev_lines (v_m v) in
+      let la := a_lines w v (Z.to_nat MAX_SLOTS) 0 ++ t_lines v (w_defrag w) 0 in
+      let ld := dev_lines (v_m v) ++ res_lines (v_m v) (w_res w) 0 in
       let '(m1, lh) := heap_lines (v_m v) (length (c_heaps c)) 0 in
       let v1 := set_m v m1 in
       let ls := stat_lines v1 in
